@@ -15,6 +15,9 @@ inductive OpFails (env : Env) (db : Db) : Op → Prop
   /-- unpersistable field value: the tags map holds, at any depth, a value of an unsupported type or an
       unusable key (no injection: the typed-bucket setters reject the value itself) -/
   | createUnpersistableValue (σ id f rank) : tagsRejected f.tags = true → OpFails env db (.create σ id f rank)
+  /-- a linked id (persisted with SetLinkedIds) names an entity the linked store does not have — real, not
+      injected -/
+  | createMissingLinkTarget (σ id f rank) : linksRejected f.links = true → OpFails env db (.create σ id f rank)
   | createName (σ id f rank) : nameRejected true db id (createOld σ db id) f = true → OpFails env db (.create σ id f rank)
   | createEmptyRole (σ id f rank) : rolesRejected (createOld σ db id) f = true → OpFails env db (.create σ id f rank)
   | createMissingFk (σ id f rank) :
@@ -32,6 +35,7 @@ inductive OpFails (env : Env) (db : Db) : Op → Prop
   | updateNotFound (σ id f rank) : view (updateStore σ db id) db id = none → OpFails env db (.update σ id f rank)
   | updateUnusableKey (σ id f rank) : keyRejected f = true → OpFails env db (.update σ id f rank)
   | updateUnpersistableValue (σ id f rank) : tagsRejected f.tags = true → OpFails env db (.update σ id f rank)
+  | updateMissingLinkTarget (σ id f rank) : linksRejected f.links = true → OpFails env db (.update σ id f rank)
   | updateName (σ id f rank) : nameRejected false db id ((db.get id).map (·.f)) f = true → OpFails env db (.update σ id f rank)
   | updateEmptyRole (σ id f rank) : rolesRejected ((db.get id).map (·.f)) f = true → OpFails env db (.update σ id f rank)
   | updateMissingFk (σ id f rank) :
@@ -194,6 +198,9 @@ theorem opFails_rejected (env : Env) (fault : Fault) (db : Db) (o : Op) (hf : Op
     | createUnpersistableValue σ id f rank hk =>
       have := (specCreate_tail env fault σ id f rank db hacc).2.2.1
       simp [writeRejected, keyRejected, hk] at this
+    | createMissingLinkTarget σ id f rank hk =>
+      have := (specCreate_tail env fault σ id f rank db hacc).2.2.1
+      simp [writeRejected, keyRejected, hk] at this
     | createName σ id f rank hk =>
       have := (specCreate_tail env fault σ id f rank db hacc).2.2.1
       simp [writeRejected, hk] at this
@@ -236,6 +243,9 @@ theorem opFails_rejected (env : Env) (fault : Fault) (db : Db) (o : Op) (hf : Op
       have := (specUpdate_tail env fault σ id f rank db hacc).2.2.2.2.1
       simp [writeRejected, hk] at this
     | updateUnpersistableValue σ id f rank hk =>
+      have := (specUpdate_tail env fault σ id f rank db hacc).2.2.2.2.1
+      simp [writeRejected, keyRejected, hk] at this
+    | updateMissingLinkTarget σ id f rank hk =>
       have := (specUpdate_tail env fault σ id f rank db hacc).2.2.2.2.1
       simp [writeRejected, keyRejected, hk] at this
     | updateName σ id f rank hk =>
@@ -326,6 +336,11 @@ theorem specSteps_rejected_stays (env : Env) (body : List Step) (b : Body) (hb :
         · rfl
     | fail tag => rfl
     | fail1 tag => rfl
+    | link op id ts =>
+      unfold specSteps
+      split
+      · rfl
+      · exact ih _ hb
     | addCommit tag => exact ih _ hb
     | addPre tag fails => exact ih _ hb
     | nestedBegin => exact ih _ hb
@@ -351,6 +366,11 @@ theorem specSteps_caller_error (env : Env) (body : List Step) (tag : Nat) (hm : 
           · rfl
       | fail tag => rfl
       | fail1 tag => rfl
+      | link op id ts =>
+        unfold specSteps
+        split
+        · rfl
+        · exact ih hr _
       | addCommit tag => exact ih hr _
       | addPre tag fails => exact ih hr _
       | nestedBegin => exact ih hr _
@@ -376,6 +396,11 @@ theorem specSteps_first_run_error (env : Env) (body : List Step) (tag : Nat) (hm
           · rfl
       | fail tag => rfl
       | fail1 tag => rfl
+      | link op id ts =>
+        unfold specSteps
+        split
+        · rfl
+        · exact ih hr _
       | addCommit tag => exact ih hr _
       | addPre tag fails => exact ih hr _
       | nestedBegin => exact ih hr _
@@ -399,10 +424,51 @@ theorem specSteps_pre_mono (env : Env) (body : List Step) (b : Body) (x : Nat ×
         · exact hx
     | fail tag => exact hx
     | fail1 tag => exact hx
+    | link op id ts =>
+      unfold specSteps
+      split
+      · exact hx
+      · exact ih _ hx
     | addCommit tag => exact ih _ hx
     | addPre tag fails => exact ih _ (by simp [hx])
     | nestedBegin => exact ih _ hx
     | nestedEnd => exact ih _ hx
     | useSystemCtx => exact ih _ hx
+
+/-- acceptance of a body split at any point: the second part is judged on what the first part leaves -/
+theorem specSteps_append_accepted (env : Env) (l1 l2 : List Step) (b : Body) :
+    (specSteps env (l1 ++ l2) b).accepted =
+      ((specSteps env l1 b).accepted && (specSteps env l2 (specSteps env l1 b)).accepted) := by
+  induction l1 generalizing b with
+  | nil =>
+    simp only [List.nil_append, specSteps]
+    cases hb : b.accepted
+    · rw [specSteps_rejected_stays env l2 b hb]; rfl
+    · rfl
+  | cons s rest ih =>
+    cases s with
+    | op o fault swallow =>
+      simp only [List.cons_append, specSteps]
+      split
+      · exact ih _
+      · split
+        · exact ih _
+        · have : (specSteps env l2 { b with accepted := false }).accepted = false :=
+            specSteps_rejected_stays env l2 _ rfl
+          simp [this]
+    | fail tag =>
+      simp only [List.cons_append, specSteps, Bool.false_and]
+    | fail1 tag =>
+      simp only [List.cons_append, specSteps, Bool.false_and]
+    | link op id ts =>
+      simp only [List.cons_append, specSteps]
+      split
+      · simp
+      · exact ih _
+    | addCommit tag => simp only [List.cons_append, specSteps]; exact ih _
+    | addPre tag fails => simp only [List.cons_append, specSteps]; exact ih _
+    | nestedBegin => simp only [List.cons_append, specSteps]; exact ih _
+    | nestedEnd => simp only [List.cons_append, specSteps]; exact ih _
+    | useSystemCtx => simp only [List.cons_append, specSteps]; exact ih _
 
 end StorageModel.Tx
